@@ -61,8 +61,8 @@ TSearch ==
              /\ LET qs == Ev.qs \o [i \in DOMAIN nodes |-> NodeRow(nodes[i])]
                     filt == AsSet(Ev.filt)
                     key == <<qs, Ev.k, Ev.thr, filt, Ev.p, Ev.agg>>
-                IN /\ IF Len(qs) = 1 THEN SearchOK(Ev.res, qs[1], Ev.k, Ev.thr, filt, Ev.p)
-                                     ELSE MultiOK(Ev.res, qs, Ev.k, Ev.thr, filt, Ev.agg)
+                IN /\ Holds(IF Len(qs) = 1 THEN SearchOK(Ev.res, qs[1], Ev.k, Ev.thr, filt, Ev.p)
+                                           ELSE MultiOK(Ev.res, qs, Ev.k, Ev.thr, filt, Ev.agg))
                    \* flushing (or serialising) soft-deleted vectors never changes an answer (exhaustive kinds, full probe)
                    /\ (prev.key = key /\ Exhaustive /\ (~Clustered \/ Probes(Ev.p) = NList)) => SameUpToTies(Ev.res, prev.res)
                    /\ prev' = [key |-> key, res |-> Ev.res]
